@@ -61,6 +61,7 @@ type Exec struct {
 	inlineDepthMax int
 	callsSeen map[string]bool // callee display names used through contracts
 	pristine *State
+	assignRhs map[*ssa.Function]map[token.Pos]string
 	inHook   bool
 	allocs   []*Object
 	trustedUsed map[string]bool
@@ -355,6 +356,7 @@ func (x *Exec) val(s *State, v ssa.Value) Val {
 		return x.constVal(v)
 	case *ssa.Global:
 		o := x.E.namedObject(globalName(v), v.Type().(*types.Pointer).Elem(), true)
+		o.global = true
 		return &PtrV{Nil: TFalse, Obj: o, Elem: o.typ}
 	case *ssa.Function:
 		return &FuncV{Nil: TFalse, Fn: v, Sig: v.Signature}
@@ -882,6 +884,17 @@ func (x *Exec) atReturn(s *State, ret Val) {
 		return
 	}
 	x.checkTypeInvariants(s)
+	// implicit frame of a function without an assigns clause: package-level
+	// state is not written (a function that does needs a contract saying so)
+	if x.c == nil || !x.c.HasAssigns {
+		for _, k := range sortedWriteKeys(s.writes) {
+			rec, ok := x.ownerOf(s.writes[k])
+			if !ok || !rec.obj.global {
+				continue
+			}
+			x.oblige(s, "frame", "global:"+rec.obj.name, TFalse, nil, "write to package-level state by a function without an assigns clause")
+		}
+	}
 	// semaphore typestate: every slot taken by this activation is given back
 	for _, k := range sortedWriteKeys(s.writes) {
 		o := s.writes[k].obj
@@ -1211,6 +1224,9 @@ func (x *Exec) enterLoop(s *State, li *loopInfo, b *ssa.BasicBlock, pred *ssa.Ba
 	if li.spec != nil {
 		env := x.specEnvFrame(s)
 		for _, inv := range li.spec.Invariants {
+			if os.Getenv("GOVC_DEBUGINV") != "" {
+				fmt.Fprintf(os.Stderr, "assume inv %s: %s\n", inv.Label, env.evalBool(inv.Expr))
+			}
 			env.assumeEnsures(inv.Expr, nil, nil)
 		}
 	}
@@ -1673,6 +1689,14 @@ func (x *Exec) nonNil(s *State, instr ssa.Instruction, v Val) {
 func (x *Exec) step(s *State, instr ssa.Instruction) {
 	switch in := instr.(type) {
 	case *ssa.DebugRef:
+		// `x := e` / `x = e`: the value of the right-hand side expression is
+		// the new value of x (lifted locals get no DebugRef of their own at
+		// the definition)
+		if !in.IsAddr {
+			if name, ok := x.assignTargets(in.Parent())[in.Expr.Pos()]; ok {
+				s.top().names[name] = x.val(s, in.X)
+			}
+		}
 		if id, ok := in.Expr.(*ast.Ident); ok {
 			if tv, isVar := in.Object().(*types.Var); isVar && tv.IsField() {
 				return // a field selector, not a variable
@@ -1867,6 +1891,58 @@ func (x *Exec) step(s *State, instr ssa.Instruction) {
 	default:
 		x.errorf("unsupported instruction %T in %s", instr, fnDisplay(instr.Parent()))
 	}
+}
+
+// assignTargets maps the position of the right-hand side of every 1:1
+// assignment in fn's syntax to the name of the assigned variable.
+func (x *Exec) assignTargets(fn *ssa.Function) map[token.Pos]string {
+	if m, ok := x.assignRhs[fn]; ok {
+		return m
+	}
+	m := map[token.Pos]string{}
+	if x.assignRhs == nil {
+		x.assignRhs = map[*ssa.Function]map[token.Pos]string{}
+	}
+	x.assignRhs[fn] = m
+	syn := fn.Syntax()
+	if syn == nil {
+		return m
+	}
+	unparen := func(e ast.Expr) ast.Expr {
+		for {
+			p, ok := e.(*ast.ParenExpr)
+			if !ok {
+				return e
+			}
+			e = p.X
+		}
+	}
+	ast.Inspect(syn, func(n ast.Node) bool {
+		switch st := n.(type) {
+		case *ast.FuncLit:
+			if ast.Node(st) != syn {
+				return false
+			}
+		case *ast.AssignStmt:
+			if len(st.Lhs) == len(st.Rhs) && (st.Tok == token.DEFINE || st.Tok == token.ASSIGN) {
+				for i, l := range st.Lhs {
+					if id, ok := l.(*ast.Ident); ok && id.Name != "_" {
+						m[unparen(st.Rhs[i]).Pos()] = id.Name
+					}
+				}
+			}
+		case *ast.ValueSpec:
+			if len(st.Names) == len(st.Values) {
+				for i, id := range st.Names {
+					if id.Name != "_" {
+						m[unparen(st.Values[i]).Pos()] = id.Name
+					}
+				}
+			}
+		}
+		return true
+	})
+	return m
 }
 
 type IterV struct {
